@@ -89,6 +89,7 @@ func (node *Node) VerifProcessOne(ctx context.Context) (wire.Block, error) {
 		return nil, nil
 	}
 	err := node.ProcessBlock(ctx, block)
+	node.state.BlockProcessed()
 	getBlocks := wire.NewMsgGetData()
 	for {
 		requestHash, _ := node.state.GetNextBlockToRequest()
